@@ -134,13 +134,13 @@ def part_ops(rep, tier, seed, layouts):
 CF_COND = {"op": ">=", "l": mc.var("n"), "r": mc.lit("i32", mc.int_to_limbs(2, 32))}
 
 
-def cf_item(k, pos):
+def cf_item(k, pos, name="y"):
     if k in ("IO", "EIO"):
         return {"k": k, "c": CF_COND}
     if k in ("IG", "EIG"):
-        return {"k": k, "c": CF_COND, "n": "y"}
+        return {"k": k, "c": CF_COND, "n": name}
     if k in ("G", "EG", "L"):
-        return {"k": k, "n": "y"}
+        return {"k": k, "n": name}
     if k == "P":
         return {"k": "P", "e": mc.binop("+", mc.binop("*", mc.var("n"), mc.lit("i32", mc.int_to_limbs(100, 32))),
                                         mc.lit("i32", mc.int_to_limbs(pos, 32)))}
@@ -150,30 +150,35 @@ def cf_item(k, pos):
 
 
 def part_cf(rep, tier, seed, layouts):
-    cfg = "MC_MachineCF_%s.cfg" % tier
-    r = common.tlc("MC_MachineCF", cfg, workers=6, timeout=1500, heap="8g", tag="C01-cf-%d" % os.getpid())
-    if not r.ok:
-        raise common.ToolError("MC_MachineCF: invariant %s violated (the specification itself is inconsistent)" % r.violated)
-    log("[tlc] MC_MachineCF/%s: %d states, %d terminating accepted bodies, %.1fs" % (cfg, r.distinct, len(r.cases), r.wall))
-    cases = r.cases
+    cases = []
+    st = {"states": 0, "transitions": 0}
+    # the full alphabet with one label name; and {O, C, G, L, P} with two label names (equal names in different scopes)
+    for cfg in ("MC_MachineCF_%s.cfg" % tier, "MC_MachineCF_labels_%s.cfg" % tier):
+        r = common.tlc("MC_MachineCF", cfg, workers=6, timeout=2400, heap="8g", tag="C01-cf-%d" % os.getpid())
+        if not r.ok:
+            raise common.ToolError("MC_MachineCF/%s: invariant %s violated (the specification itself is inconsistent)" % (cfg, r.violated))
+        log("[tlc] MC_MachineCF/%s: %d states, %d terminating accepted bodies, %.1fs" % (cfg, r.distinct, len(r.cases), r.wall))
+        cases += r.cases
+        st["states"] += r.distinct
+        st["transitions"] += r.generated
     programs, expected, keys = [], [], []
     for start in range(0, len(cases), PACK):
         chunk = cases[start:start + PACK]
         fns, body, exp, ks = [], [], [], []
         for k, c in enumerate(chunk):
             items = [{"k": "V", "x": "n", "ty": mc.prim("i32"), "e": mc.lit("i32", [0, 0, 0, 0])}]
-            items += [cf_item(kind, p + 1) for p, kind in enumerate(c["b"])]
+            items += [cf_item(kind, p + 1, c["ns"][p]) for p, kind in enumerate(c["b"])]
             fns.append({"name": "f%d" % k, "params": [], "ret": mc.VOID, "body": items})
             body += [{"k": "M", "i": k}, {"k": "CALL", "f": "f%d" % k, "args": [], "d": ""}]
             exp.append([mc.shown(v, "i32") for v in c["out"]])
-            ks.append("cf " + " ".join(c["b"]))
+            ks.append("cf " + " ".join(k + (":" + n if n not in ("", "y") or (n and "z" in c["ns"]) else "") for k, n in zip(c["b"], c["ns"])))
         programs.append(mc.program([mc.main_fn(body)] + fns))
         expected.append(exp)
         keys.append(ks)
     checked = check_pack(rep, "cf", programs, expected, keys, layouts, seed, "C01-cf")
     log("[replay] control-flow skeletons: %d bodies in %d programs x %d layouts, %d comparisons" %
         (len(cases), len(programs), layouts, checked))
-    return cases, {"states": r.distinct, "transitions": r.generated}
+    return cases, st
 
 
 def ptr_key(c):
@@ -272,31 +277,45 @@ def run(rep, tier, seed, selftest):
     rs = random.Random(seed)
     samples = [{"cell": c} for c in rs.sample(live, min(3, len(live)))]
     samples += [{"skeleton": c} for c in rs.sample(cf_cases, min(3, len(cf_cases)))]
+    samples += [{"caller_callee": {k: c[k] for k in ("c1", "c2", "status", "out")}} for c in rs.sample(ptr_cases, min(3, len(ptr_cases)))]
     samples += rnd.get("samples", [])
     coverage = {
-        "states": st_ops["states"] + st_cf["states"] + rnd.get("states", 0),
-        "transitions": st_ops["transitions"] + st_cf["transitions"] + rnd.get("transitions", 0),
-        "traces_validated_against_impl": len(live) + len(cf_cases) + rnd.get("accepted", 0),
+        "states": st_ops["states"] + st_cf["states"] + st_ptr["states"] + rnd.get("states", 0),
+        "transitions": st_ops["transitions"] + st_cf["transitions"] + st_ptr["transitions"] + rnd.get("transitions", 0),
+        "traces_validated_against_impl": len(live) + len(cf_cases) + len(ptr_cases) + rnd.get("accepted", 0),
         "samples": samples,
-        "evaluations": len(cells) + len(cf_cases) + rnd.get("programs", 0),
-        "distinct_nontrivial": len(live) + len(cf_cases) + rnd.get("nontrivial", 0),
+        "evaluations": len(cells) + len(cf_cases) + len(ptr_cases) + rnd.get("programs", 0),
+        "distinct_nontrivial": len(live) + len(cf_cases) + st_ptr["changed"] + rnd.get("nontrivial", 0),
         "rule": "A: TLC evaluates every operator x type x boundary-operand cell of Machine.tla (ub cells are not executed); "
                 "B: TLC enumerates every accepted body over blocks/if-else chains/gotos/labels/loops/increment/print up to the "
-                "bound and runs the machine; C: a seeded Rust generator produces well-typed programs (functions, arrays, "
-                "casts, loops) whose recorded output TLC validates by running the machine on the logged program. "
-                "Non-trivial = cells with defined behaviour + terminating bodies + random programs that terminate without "
-                "undefined behaviour and print at least one value. Each program runs in %d layouts." % layouts,
+                "bound (and over {block, goto, label, print} with two label names) and runs the machine; "
+                "P: TLC enumerates every caller/callee program of MC_MachinePtr (parameter kind x argument form x way the callee "
+                "treats the parameter, one or two parameters), runs the machine and checks non-interference, legality and the "
+                "machine's monitors as invariants; accepted programs are executed and compared, refused ones must be rejected; "
+                "C: a seeded Rust generator produces well-typed programs (all integer widths, value / word / view / slice-pointer / "
+                "pointer / pointer-to-pointer parameters, arrays incl. multi-dimensional, structs, words, constants, calls in "
+                "expressions) whose recorded output TLC validates by running the machine on the logged program. "
+                "Non-trivial = cells with defined behaviour + terminating bodies + caller/callee programs in which the call changes "
+                "a caller cell + random programs that terminate without undefined behaviour and print at least one value. "
+                "Each program runs in %d layouts." % layouts,
         "exhaustive": True,
         "ops_cells": len(cells), "ops_cells_defined": len(live), "cf_bodies": len(cf_cases),
+        "ptr_programs": len(ptr_cases), "ptr_programs_completed": st_ptr["done"], "ptr_programs_changing_a_caller_cell": st_ptr["changed"],
         "random_programs": rnd.get("programs", 0), "random_programs_trivial": rnd.get("trivial", 0),
-        "layouts": layouts, "stage": "1 (integers of all widths, bool, casts, control flow, calls by value, arrays by value)",
+        "layouts": layouts,
+        "stage": "3 (stage 1: integers of all widths, bool, casts, control flow, calls by value; stage 2: pointers, address "
+                 "assignment, views, slice pointers, lengths; stage 3: structs, words, multi-dimensional arrays, constants of "
+                 "aggregate type, calls in expressions, size-of)",
         "selftests": selftests,
     }
     return rep.finish("model_checking", coverage, [
         "decimal text <-> two's complement limbs is converted in Python (trusted)",
         "undefined behaviour (division by zero, MIN / -1, shift >= width, index out of bounds) is decided by the "
         "specification; such cells/programs are not executed",
-        "stage 1 of DESIGN C01: pointers, address assignment, views/slices as parameters, structs and words are not yet in Machine.tla",
+        "undefined behaviour also covers dangling pointers (frame returned, block left, loop iteration over) and reads of "
+        "uninitialised cells; a program killed by a signal is accepted only if the specification finds undefined behaviour in it",
+        "evaluation order among sibling operands with side effects is not documented: the generated family has at most one call "
+        "per statement outside call arguments, and calls with `&` arguments only as a whole right hand side",
         "lli (LLVM 14 interpreter/JIT) executes the IR, as `penne run` does",
     ])
 
